@@ -50,6 +50,10 @@ def execute_case(prop, case, want_trace=False):
     try:
         run = prop.make_run(sim, case)
         outcome = sim.run(run.root, wall_timeout=case.get('wall_timeout', 60.0))
+        if outcome != 'harness-error' and not sim.root_proc.alive:
+            # the library killed the calling process (known C04 finding: RemoteWorker.terminate(force=True) SIGTERMs
+            # os.getpid() when its frontend thread is slow): only C04 judges this; elsewhere the run is inconclusive
+            outcome = 'caller-killed'
         res['outcome'] = outcome
         if outcome == 'harness-error':
             res['harness_error'] = sim.outcome_info
